@@ -656,6 +656,27 @@ func loopHeadOf(b *ssa.BasicBlock) *ssa.BasicBlock {
 	return best
 }
 
+// everyIteration: the instruction runs on every iteration of its innermost loop, i.e. its block dominates every
+// back edge of that loop (a conditional `continue` in front of it breaks this).
+func everyIteration(in ssa.Instruction) bool {
+	b := in.Block()
+	h := loopHeadOf(b)
+	if h == nil {
+		return false
+	}
+	n := 0
+	for _, pr := range h.Preds {
+		if !h.Dominates(pr) {
+			continue
+		}
+		n++
+		if !b.Dominates(pr) {
+			return false
+		}
+	}
+	return n > 0
+}
+
 func outermostLoopHead(b *ssa.BasicBlock) *ssa.BasicBlock {
 	var best *ssa.BasicBlock
 	for _, h := range b.Parent().Blocks {
